@@ -80,6 +80,18 @@ theorem c01_fs_never_io_error (v : Model.Fs.Vol) (count : Nat) (hv : Proofs.FsIn
     (h : Proofs.FsInv.Inv v count s) (hs : Proofs.FsShape.ShapeNodes v.bpc s.nodes) (op : Model.Fs.Op) :
     (Model.Fs.step v s op).2 ≠ .err .eio := Proofs.FsRun.never_eio hv h hs op
 
+/-- `removetree` (pyfatfs' own compound call, modelled as the primitive calls it makes — files of a directory
+    first, then each sub-directory recursively, then the directory itself): in every state with the invariant it
+    keeps the invariant, memory = device and the shape of files, and leaves the tree the reference filesystem has
+    after the same primitive calls -/
+theorem c01_fs_removetree (v : Model.Fs.Vol) (count : Nat) (hv : Proofs.FsInv.VolOK v count) (s : Model.Fs.St)
+    (h : Proofs.FsInv.Inv v count s) (path : List Nat) (loc : Model.Fs.Loc)
+    (hr : Model.Fs.resolve s.nodes path = some loc) (hd : loc.isDir = true) :
+    Proofs.FsInv.Inv v count (Model.Fs.removetree v s path).1 ∧
+      Model.Fs.abs (Model.Fs.removetree v s path).1 =
+        Proofs.FsRun.specRun v s (Model.Fs.abs s) (Model.Fs.expandTree (s.nodes.length + 1) s.nodes path loc) :=
+  ⟨(Proofs.FsRun.removetree_good hv h path).1, Proofs.FsRun.removetree_sim hv h path loc hr hd⟩
+
 /-- path resolution through the directories (what `get_entry` does) is lookup by path -/
 theorem c01_fs_lookup (nodes : List Model.Fs.Node) (h : Proofs.FsTree.TreeInv nodes) (q : List Nat) (hq : q ≠ []) :
     Model.Fs.resolve nodes q = (nodes.find? (fun n => n.path == q)).map Model.Fs.Loc.node :=
@@ -98,6 +110,7 @@ example : Proofs.FsInv.Inv demoVol 6 demoSt :=
       have : c = 2 ∨ c = 3 ∨ c = 4 ∨ c = 5 ∨ c = 6 ∨ c = 7 := by omega
       rcases this with rfl | rfl | rfl | rfl | rfl | rfl <;> decide) (by decide)
     (fun i hi _ => by omega)
+example : Model.Fs.abs (Model.Fs.removetree demoVol (Model.Fs.run demoVol demoSt (demoOps.take 4)) []).1 = [] := by decide
 example : (Model.Fs.run demoVol demoSt demoOps).fat = [4088, 4095, 4095, 4095, 0, 0, 0, 0] := by decide
 example : Model.Fs.abs (Model.Fs.run demoVol demoSt demoOps) = [⟨[1], true, 0⟩, ⟨[1, 2], false, 10⟩] := by decide
 
